@@ -1,0 +1,31 @@
+//go:build verif
+
+package v2
+
+import (
+	"math/big"
+
+	"github.com/iotaledger/iota.go/consts"
+	"github.com/iotaledger/iota.go/trinary"
+)
+
+// Verification hooks: aliases of unexported functions, compiled only with -tags verif.
+
+// VerifCheckStateTrits is checkStateTrits.
+func VerifCheckStateTrits(l, h *[consts.HashTrinarySize]uint, sufficientTrailing int, target *big.Int) int {
+	return checkStateTrits(l, h, sufficientTrailing, target)
+}
+
+// VerifToInt is toInt.
+func VerifToInt(trits trinary.Trits) *big.Int { return toInt(trits) }
+
+// VerifSufficientTrailingZeros is sufficientTrailingZeros.
+func VerifSufficientTrailingZeros(data []byte, targetScore uint64) int {
+	return sufficientTrailingZeros(data, targetScore)
+}
+
+// VerifTargetHash is targetHash.
+func VerifTargetHash(data []byte, targetScore uint64) *big.Int { return targetHash(data, targetScore) }
+
+// VerifMaxHash returns a copy of maxHash.
+func VerifMaxHash() *big.Int { return new(big.Int).Set(maxHash) }
